@@ -2,6 +2,7 @@ package rules
 
 import (
 	"fmt"
+	"regexp"
 	"sort"
 	"strings"
 
@@ -13,6 +14,8 @@ import (
 // ||, !, De Morgan forms) is compared with the table's formula by exhaustive truth table
 // over the named atoms. `equiv` entries must be equal; `implies` entries must be true
 // whenever the table's formula is (a stronger iterator test is safe, a weaker one is not).
+
+var l0Result = regexp.MustCompile(`\$ret\d+`)
 
 type l0Entry struct {
 	Func    string            // function key
@@ -155,6 +158,16 @@ func L0(rc *RC, only func(fn string) bool) {
 				if _, ok := e.Atoms[a]; !ok {
 					extra = append(extra, a)
 				}
+			}
+			opaque := ""
+			for _, a := range extra {
+				if strings.Contains(a, "%") || l0Result.MatchString(a) {
+					opaque = a // a local or the result variable itself: not a predicate of the inputs
+				}
+			}
+			if opaque != "" {
+				rc.S.Undec("L0", key, pos, "the definition is written over "+opaque+", which is not a predicate of the inputs: "+f.String())
+				continue
 			}
 			if len(extra) > 6 {
 				rc.S.Undec("L0", key, pos, "too many atoms outside the table's vocabulary in "+f.String())
